@@ -355,6 +355,7 @@ pub fn main(o: &Opts) -> i32 {
     let mut rep = Report::new("C18", o.tier.name(), o.seed, "exploration");
     let fx = load("wire.json");
     let gens_fx = crate::props::c12::load_fixtures();
+    let blobs_fx = crate::props::c12::load_blobs();
     let ufx = load("wire_unpatched.json");
     let mut progs: Vec<Program> = match o.tier {
         Tier::Quick => program_space2(2, 1, 0),
@@ -365,7 +366,7 @@ pub fn main(o: &Opts) -> i32 {
     rep.bounds = json!({"fixtures_per_curve": fixture_programs().len(), "fixture_programs": fixture_programs().iter().map(|p| p.name()).collect::<Vec<_>>(),
         "fresh_schedule_programs": progs.len(), "generator_digests": "4 parties x prefixes up to 1024 (quick) / 4096 (thorough), Pedersen bases"});
     rep.curves = CURVES.iter().map(|s| s.to_string()).collect();
-    rep.rule = "every recorded fixture (proof + statement) of the reference revision is verified on the current tree: accepted for its statement, rejected for each recorded wrong statement, same transcript schedule (operation, label, payload length) and same challenge outputs, re-encodes to the recorded bytes; generator and Pedersen-base digests reproduce; the label / domain-separator table of the reference revision is compared with the schedule of a fresh honest run of every program of the bounded space; non-trivial = fixture verifications plus fresh schedules".into();
+    rep.rule = "every recorded fixture (proof + statement) of the reference revision is verified on the current tree: accepted for its statement, rejected for each recorded wrong statement, same transcript schedule (operation, label, payload length) and same challenge outputs, re-encodes to the recorded bytes; generator and Pedersen-base digests reproduce; serialized generator objects recorded from the pinned revision are reproduced byte for byte and still decode to the same views; the label / domain-separator table of the reference revision is compared with the schedule of a fresh honest run of every program of the bounded space; non-trivial = fixture verifications plus fresh schedules".into();
     let start = rep.start;
     for (ci, curve) in CURVES.iter().enumerate() {
         let sub: Vec<&Program> = progs.iter().enumerate().filter(|(i, _)| o.tier == Tier::Thorough || i % 3 == ci).map(|(_, p)| p).collect();
@@ -375,7 +376,9 @@ pub fn main(o: &Opts) -> i32 {
             let (gn, mut b3) = crate::props::c12::content_checks::<G>(if o.tier == Tier::Quick { 1024 } else { 4096 }, 4, Some(&gens_fx));
             let (un, b4) = check_unpatched::<G>(&ufx, false);
             b3.extend(b4);
-            (a + un, r, b1, pn, sn, b2, gn, b3)
+            let (bn, b5) = crate::props::c12::blob_checks::<G>(&blobs_fx, true);
+            b3.extend(b5);
+            (a + un, r, b1, pn, sn, b2, gn + bn, b3)
         });
         rep.count("fixtures accepted for their statement", acc);
         rep.count("recorded wrong statements rejected", rej);
